@@ -8,3 +8,4 @@
 -/
 import ForsysModel.Props.C06
 import ForsysModel.Props.C06system
+import ForsysModel.Props.C06more
